@@ -38,7 +38,7 @@ def task_program(rng, i):
     nodes = []
     nb = rng.randint(1, 4)
     for b in range(nb):
-        kind = rng.pick(["layered", "layered", "map", "roundtrip", "badfile", "merge", "errstr"])
+        kind = rng.pick(["layered", "layered", "map", "roundtrip", "badfile", "merge", "errstr", "crowded"])
         if kind == "layered":
             w = gen.gen_layered_world(rng, rng.randrange(64), two_layer=rng.chance(0.5), small=True, allow_refuse=False)
             w["read"].pop("rel", None)
@@ -56,6 +56,17 @@ def task_program(rng, i):
                 w["read"].pop(gk, None)       # the process-wide setters are documented as global: single-task prologue only
             blocks.append({"kind": "layered", "read": w["read"], "ep": ep, "cb": rng.chance(0.5)})
             nodes += w["nodes"]
+        elif kind == "crowded":
+            # a private two-layer tree with dozens of drop-ins (some names in both layers): algorithms that switch strategy
+            # with the number of files run in several threads at once
+            base = "$ROOT/t%d/cr%d" % (i, b)
+            n_u, n_e = rng.randint(18, 40), rng.randint(18, 40)
+            nodes.append({"p": base + "/u/app.conf", "t": "f", "entries": [[None, "main", "t%d" % i]]})
+            for k in rng.sample(range(100, 200), n_u):
+                nodes.append({"p": base + "/u/app.conf.d/%d.conf" % k, "t": "f", "entries": [[None, "k%d" % (k % 7), "u%d-%d" % (i, k)]]})
+            for k in rng.sample(range(100, 200), n_e):
+                nodes.append({"p": base + "/e/app.conf.d/%d.conf" % k, "t": "f", "entries": [[None, "k%d" % (k % 7), "e%d-%d" % (i, k)]]})
+            blocks.append({"kind": "crowded", "usr": base + "/u", "etc": base + "/e", "hist": rng.chance(0.3)})
         elif kind == "map":
             mw = c11.gen_world(rng, 0, "quick")
             mw["ops"] = mw["ops"][:15]
@@ -120,6 +131,15 @@ def block_ops(b, base):
                     o[f] += base
             ops.append(o)
         ops.append({"op": "errLocation", "nocompare": True})
+    elif k == "crowded":
+        if b["hist"]:
+            ops.append({"op": "readDirsHistory", "o": base, "usr": b["usr"], "etc": b["etc"], "name": "app", "suffix": "conf", "delim": "=", "comment": "#"})
+            ops.append({"op": "dumpHistory", "h": base, "ext": False})
+            ops.append({"op": "freeHistory", "h": base})
+        else:
+            ops.append({"op": "readDirs", "o": base, "usr": b["usr"], "etc": b["etc"], "name": "app", "suffix": "conf", "delim": "=", "comment": "#"})
+            ops.append({"op": "dump", "k": base, "ext": True})
+            ops.append({"op": "free", "k": base})
     elif k == "map":
         ops.append({"op": b["ctor"], "o": base, "delim": 61, "comment": 35, "options": None})
         for a in b["ops"]:
